@@ -51,6 +51,10 @@ pub enum DemoOp {
     /// typed level: a message that cannot fit the writer's 64 KiB buffer: must be refused with an error,
     /// is not part of the recording, and the recording goes on
     MsgTooLong { salt: u32 },
+    /// typed level: the current world plus `n` characters with extreme field values under fresh ids: depending on
+    /// `n` the snapshot fits, is too large for the writer's 64 KiB packing buffer, or is refused by the snapshot
+    /// builder; a refused call is not part of the recording, which goes on
+    SnapHuge { n: u16, salt: u32 },
     /// typed level: a `write_snap` call for the next tick whose object list names the same (type, id) twice:
     /// the writer must refuse it with an error; it is not part of the recording, which goes on afterwards
     SnapDuplicateId { salt: u32 },
@@ -396,6 +400,8 @@ impl DemoEngine {
         let mut dup_refused = 0u64;
         let mut io_refused = 0u64;
         let mut long_refused = 0u64;
+        let mut huge_ok = 0u64;
+        let mut huge_refused = 0u64;
         let mut snaps = 0u64;
         let mut keyframe_span = false;
         let arm_cell = disk.fail_once.clone();
@@ -472,6 +478,47 @@ impl DemoEngine {
                     DemoOp::WriteError => {
                         arm_cell.set(true);
                         armed = Some(fired_cell.get());
+                    }
+                    DemoOp::SnapHuge { n, salt } => {
+                        if armed.take().is_some() {
+                            arm_cell.set(false);
+                        }
+                        let mut r = Prng::new(mix(cfg.seed, salt as u64, 0x68756765));
+                        let tick = match last_tick {
+                            None => cfg.first_tick.max(0) as i64 + 1,
+                            Some(t) => t as i64 + 1,
+                        };
+                        if tick > i32::MAX as i64 {
+                            continue;
+                        }
+                        let tick = tick as i32;
+                        let mut objs: Vec<(so::SnapObj, u16)> = world.iter().map(|(&(_, id), o)| (o.to_snap_obj(), id)).collect();
+                        for k in 0..n.min(1100) {
+                            let big = |r: &mut Prng| if r.chance(9, 10) { *r.pick(&[i32::MIN, i32::MAX, i32::MIN + 1, -(1 << 28), 1 << 28]) } else { r.i32_edge() };
+                            // free fields take extreme values, constrained fields stay inside the ranges the codec asserts
+                            let core = so::CharacterCore { tick: big(&mut r), x: big(&mut r), y: big(&mut r), vel_x: big(&mut r), vel_y: big(&mut r), angle: big(&mut r), direction: r.range(0, 2) as i32 - 1, jumped: r.range(0, 3) as i32, hooked_player: r.range(0, 128) as i32 - 1, hook_state: r.range(0, 6) as i32 - 1, hook_tick: big(&mut r), hook_x: big(&mut r), hook_y: big(&mut r), hook_dx: big(&mut r), hook_dy: big(&mut r) };
+                            let ch = so::Character { character_core: core, player_flags: r.range(0, 256) as i32, health: r.range(0, 10) as i32, armor: r.range(0, 10) as i32, ammo_count: r.range(0, 11) as i32 - 1, weapon: r.range(0, 6) as i32 - 1, emote: libtw2_gamenet_ddnet::enums::Emote::Normal, attack_tick: big(&mut r).wrapping_abs().max(0) };
+                            if salt & 1 == 0 {
+                                objs.push((so::SnapObj::Character(ch), 100 + k));
+                            } else {
+                                // almost every field free: packs to more bytes than it takes as integers
+                                let ci = so::ClientInfo { name: [big(&mut r), big(&mut r), big(&mut r), big(&mut r)], clan: [big(&mut r), big(&mut r), big(&mut r)], country: big(&mut r), skin: [big(&mut r), big(&mut r), big(&mut r), big(&mut r), big(&mut r), big(&mut r)], use_custom_color: r.below(2) as i32, color_body: big(&mut r), color_feet: big(&mut r) };
+                                objs.push((so::SnapObj::ClientInfo(ci), 100 + k));
+                            }
+                        }
+                        match w.write_snap(tick, objs.iter().map(|(o, id)| (o, *id))) {
+                            Ok(()) => {
+                                model.push(TChunk::Tick(tick));
+                                model.push(TChunk::Snapshot(render(&objs)));
+                                last_tick = Some(tick);
+                                snaps += 1;
+                                huge_ok += 1;
+                                if first_tick.is_none() {
+                                    first_tick = Some(tick);
+                                }
+                            }
+                            Err(_) => huge_refused += 1,
+                        }
                     }
                     DemoOp::SnapDuplicateId { salt } => {
                         if armed.take().is_some() {
@@ -553,6 +600,8 @@ impl DemoEngine {
             ctx.count_n("probe_typed_refused_duplicate_id", dup_refused);
             ctx.count_n("probe_typed_refused_by_write_error", io_refused);
             ctx.count_n("probe_typed_refused_long_message", long_refused);
+            ctx.count_n("probe_typed_huge_snapshot_accepted", huge_ok);
+            ctx.count_n("probe_typed_huge_snapshot_refused", huge_refused);
             ctx.count_n("probe_typed_snapshots", snaps);
             if keyframe_span {
                 ctx.count("probe_typed_crossed_keyframe_interval");
@@ -714,6 +763,9 @@ impl Engine for DemoEngine {
                     };
                     if s.chance(1, 12) {
                         ops.push(DemoOp::SnapDuplicateId { salt: s.next_u64() as u32 });
+                    }
+                    if s.chance(1, 40) {
+                        ops.push(DemoOp::SnapHuge { n: *s.pick(&[50u16, 400, 560, 600, 650, 700, 740, 760, 800, 850, 900, 1000]), salt: s.next_u64() as u32 });
                     }
                     if typed_write_errors && s.chance(1, 10) {
                         ops.push(DemoOp::WriteError);
